@@ -31,7 +31,10 @@ Init == \E i \in 1..Len(Traces) :
 
 \* which spec events the real parser makes observable: everything in verbose mode; the functor observers and the
 \* two non-verbose messages always
-Visible(e) == e[1] # "tau" /\ (opt.v \/ e[1] \in {"tval", "call", "synerr", "unexp"})
+\* (with the no-stream overloads or a std::ostream the harness sees only the functor observers: sk # 0)
+Visible(e) == /\ e[1] # "tau"
+              /\ IF Traces[tix].sk = 0 THEN (opt.v \/ e[1] \in {"tval", "call", "synerr", "unexp"})
+                 ELSE e[1] \in {"tval", "call"}
 Match(e, x) == e[1] = x[1] /\ Len(e) = Len(x) /\ e = x
 
 Step ==
